@@ -239,6 +239,15 @@ func runC06(w *vx.W) {
 				handle(genSpec{Slot: gs, Msgs: [][]genFieldSet{{{tsSlot, 1}, {localSlot, vi}}}, HdrCRC: c&1 == 0, Big: c&2 != 0, Desc: fmt.Sprintf("timestamp + local timestamp value#%d", vi)}, "local-with-reference")
 			}
 		}
+		// zone offsets that are not whole minutes or hours, in the same message and with the reference in an earlier message
+		for i := range genLocalOffsets {
+			for c := 0; c < 4; c++ {
+				handle(genSpec{Slot: gs, Msgs: [][]genFieldSet{{{tsSlot, 1}, {localSlot, 100 + i}}}, HdrCRC: c&1 == 0, Big: c&2 != 0, Desc: fmt.Sprintf("timestamp + local timestamp %+d s away", genLocalOffsets[i])}, "local-with-reference")
+				if gs.Slot.IsSlice {
+					handle(genSpec{Slot: gs, Msgs: [][]genFieldSet{{{tsSlot, 1}}, {{localSlot, 100 + i}}, {{tsSlot, 1}, {localSlot, 100 + (i+5)%len(genLocalOffsets)}}}, HdrCRC: c&1 == 0, Big: c&2 != 0, Desc: fmt.Sprintf("timestamp; then local timestamp %+d s away; then both", genLocalOffsets[i])}, "local-with-reference")
+				}
+			}
+		}
 	}
 	// Files with every member populated at once
 	for _, t := range fileTypes {
